@@ -210,11 +210,8 @@ def py_step(xs, op):
 
 
 def triggers(xs, op):
-    k, n = op[0], len(xs)
-    if k in ("get", "set", "del"):
-        i = op[1]
-        return i < 0 or i == n or (k == "del" and i == 0 and n >= 2)
-    return k == "iadd" and not op[1] and n == 0
+    """the one remaining known-finding region: item assignment at index == len"""
+    return op[0] == "set" and op[1] == len(xs)
 
 
 class C19(Suite):
@@ -223,7 +220,7 @@ class C19(Suite):
     case_ty = "case"
     obs_ty = "list snap"
     kf = "kf"
-    kf_ids = {1: "F3b", 2: "F3d", 3: "F3e", 4: "F3g"}
+    kf_ids = {2: "F3d"}
     corr = ("Collection.__getitem__/__setitem__/__delitem__/append/__iadd__/clear/__len__/__iter__/index/"
             "_get_container/_end, Graph.items/value/set/remove")
     quick_n = 900
@@ -241,7 +238,7 @@ class C19(Suite):
             # noise never mentions a node the model could later hand out as a fresh cell
             nodes = [1, 2, HEAD, 5, NIL] + ([CELL0] if n0 >= 2 else [])
             noise.append([rng.choice(nodes[:4] + nodes[5:]), rng.choice([3, 4]), rng.choice(nodes)])
-        wild = rng.random() < 0.3
+        wild = rng.random() < 0.2  # may enter the remaining trigger region (c[len] = v)
         xs, ops = list(init), []
         for _ in range(rng.choice([1, 2, 3, 4, 5, 6, 8, 10])):
             for _try in range(20):
@@ -251,8 +248,6 @@ class C19(Suite):
             else:
                 op = ["append", rng.choice(vocab)]
             ops.append(op)
-            if op[0] == "del" and op[1] < 0 and xs and rng.random() < 0.8:
-                break  # the chain is now cyclic (F3e): most later calls would only hang
             py_step(xs, op)
         return {"init": init, "noise": noise, "ops": ops}
 
@@ -362,8 +357,10 @@ class C19(Suite):
             yield dict(case, init=init, noise=noise)
 
     def sweep(self):
-        """all trigger-free histories of length <= 3 over a small alphabet, from lengths 0..3"""
-        alpha = [["append", 6], ["append", 1], ["iadd", [5, 6]], ["clear"], ["index", 6], ["contains", 5]]
+        """all trigger-free histories of length <= 3 over a small alphabet (incl. negative indices, del c[0],
+        index == len reads and deletes, += []), from lengths 0..3"""
+        alpha = [["append", 6], ["append", 1], ["iadd", [5, 6]], ["iadd", []], ["clear"], ["index", 6], ["contains", 5],
+                 ["del", 0], ["del", -1], ["del", -2], ["get", -1], ["set", -1, 7], ["set", 0, 14]]
         for n0 in range(4):
             init = [6, 5, 6][:n0]
             for n in (1, 2, 3):
@@ -375,11 +372,11 @@ class C19(Suite):
                         elif a == len(alpha):
                             op = ["del", len(xs) - 1]
                         elif a == len(alpha) + 1:
-                            op = ["del", 1 if len(xs) > 2 else len(xs) + 1]
+                            op = ["del", 1 if len(xs) > 2 else len(xs)]
                         elif a == len(alpha) + 2:
                             op = ["set", len(xs) // 2, 7]
                         else:
-                            op = ["get", len(xs) + 1]
+                            op = ["get", len(xs)]
                         if triggers(xs, op):
                             ok = False
                             break
@@ -397,8 +394,6 @@ class C19Reads(Suite):
     model = "r_model"
     oeq = "r_obs_eqb"
     spec = "r_spec"
-    kf = "r_kf"
-    kf_ids = {1: "F3c"}
     corr = "Collection.__getitem__/__len__/__iter__/index/_get_container, Graph.items/value on cyclic, broken, forked chains"
     quick_n = 300
     thorough_n = 6000
@@ -446,7 +441,6 @@ class C19Reads(Suite):
             if tuple(t) not in seen:
                 seen.add(tuple(t))
                 gg.append(t)
-        cyc = kind == "cycle"
         ops = []
         for _ in range(rng.choice([2, 3, 4, 5])):
             r = rng.random()
@@ -459,9 +453,7 @@ class C19Reads(Suite):
             elif r < 0.80:
                 ops.append(["contains", rng.choice(members + [12])])
             else:
-                # index() of an absent item on a cyclic chain hangs (F3c): keep these few, each costs OP_TIMEOUT
-                absent_ok = (not cyc) or rng.random() < 0.08
-                ops.append(["index", rng.choice(members + ([12] if absent_ok else []))])
+                ops.append(["index", rng.choice(members + [12])])
         return {"graph": gg, "ops": ops}
 
     def run_impl(self, case):
@@ -515,6 +507,6 @@ ASSUMPTIONS = [
     "members are RDF terms of the pool (falsy literals included); an operation that computes longer than 0.5 CPU-seconds is counted as a hang",
 ]
 RULE = ("collection: start list of length 0-5 over a vocabulary of 2-4 members (always a falsy literal, duplicates frequent), 0-3 noise "
-        "triples, 1-10 operations steered by the Python list the history produces (70% of the cases stay outside the known-finding "
-        "trigger regions, 30% use any index in -n-1..n+2); distinct by full case content, non-trivial = contains a write. "
+        "triples, 1-10 operations steered by the Python list the history produces, any index in -n-1..n+2 (80% of the cases stay outside the one "
+        "remaining known-finding region, c[len] = v); distinct by full case content, non-trivial = contains a write. "
         "collreads: a chain of 1-4 cells mutated into a cyclic / broken / forked / literal-linked chain, 2-5 reads.")
